@@ -421,7 +421,9 @@ func c12Floor(tier string) []*C12Sc {
 			{DupIDs: true, Items: []ItemSubst{{Status: 1, Reason: 1, Message: true, Payload: "absent"}, {}}},
 			{Items: []ItemSubst{{Status: 1, Reason: 1, Message: true, Payload: "absent"}, {}}},
 			{Items: []ItemSubst{{}, {Status: 1, Reason: 1, Message: true, Payload: "absent"}}},
-			{ItemsDelta: -1, Items: []ItemSubst{{Status: 1, Reason: 1, Message: true, Payload: "absent"}, {}}}} {
+			{ItemsDelta: -1, Items: []ItemSubst{{Status: 1, Reason: 1, Message: true, Payload: "absent"}, {}}},
+			{Items: []ItemSubst{{Status: 1, Reason: 1, Message: true, Payload: "absent"}, {Status: 1, Reason: 4, Message: true, Payload: "absent"}}},
+			{Items: []ItemSubst{{Status: 1, Reason: 5, Message: true, MsgStyle: 1, Payload: "absent"}, {}, {Status: 3, Reason: 2, Message: true, Payload: "absent"}}}} {
 			out = append(out, &C12Sc{Op: -1, Batch: []int{0, 10}, BatchOption: opt, Subst: sb})
 			out = append(out, &C12Sc{Op: -1, Batch: []int{3, 0, 7}, BatchOption: opt, Subst: sb})
 		}
@@ -847,6 +849,17 @@ func execC12(x *X, scAny any) {
 			}
 			if anyFailed && uerr == nil {
 				x.Reportf("C12.failure-returned-as-success", "batch-unwrap", "BatchResult.Unwrap returned no error although an item failed")
+			}
+			// ... every one of them: each failed item's status, reason and message (the message names the item)
+			if uerr != nil {
+				for i := range sc.Batch {
+					if i >= len(sent) || sent[i].status == kmip.ResultStatusSuccess {
+						continue
+					}
+					if it := sent[i].item; (it.Op == "" || it.Op == "absent") && it.Payload == "absent" {
+						checkErrCarries(x, fmt.Sprintf("Batch.Unwrap, failed item %d of %d", i, len(sc.Batch)), uerr, sent[i])
+					}
+				}
 			}
 		}
 	}
